@@ -80,3 +80,46 @@ def sim_static(prog):
         from nk.build import AnalysisBroken
         raise AnalysisBroken('SIM-STATIC: only %d simulator functions' % nsim)
     return RuleResult('SIM-STATIC', obs, 1, {'simulator_functions': nsim})
+
+
+def word_addr(prog):
+    """WORD-ADDR (C15): the LC-3 simulator addresses 16-bit words and scales them by 2 for the byte store; every word address
+    handed to Memory::write8 is narrowed to the 64K-word space first: the scaled operand is a 16-bit typed value (a uint16_t
+    variable or a cast) or is masked with 0xffff.  An int sum of a register and a sign-extended offset carries out of 16 bits
+    and the store lands at byte 0x20000 and beyond."""
+    from nk.facts import kids, strip, const, callee, show, walk, call_args
+    from nk.report import Ob, RuleResult, DISCHARGED, VIOLATED
+    from nk.build import AnalysisBroken
+    from nk.interval import type_range
+    obs = []
+    for fn in sorted(prog.functions(lambda f: f.file == 'simulate/lc3.cpp' and f.blocks), key=lambda f: f.line):
+        for c in sorted(fn.calls(), key=lambda x: x['i']):
+            if (callee(c) or '').split('(')[0] != 'Memory::write8' or not call_args(c):
+                continue
+            a = strip(call_args(c)[0], casts=True)
+            # (X * 2) + 1  /  X * 2
+            if a['k'] == 'BinaryOperator' and a.get('op') == '+' and const(kids(a)[1]) == 1:
+                a = strip(kids(a)[0], casts=True)
+            if not (a['k'] == 'BinaryOperator' and a.get('op') in ('*', '<<') and const(kids(a)[1]) in (2, 1)):
+                continue
+            x = kids(a)[0]
+            while x['k'] in ('ParenExpr',):
+                x = kids(x)[0]
+            inner = strip(x, casts=False)
+            # the operand before the integral promotion
+            y = x
+            while y['k'] == 'ImplicitCastExpr' and y.get('ck') in ('IntegralCast', 'LValueToRValue', 'NoOp'):
+                t = fn.type(kids(y)[0]) if kids(y) else None
+                y = kids(y)[0]
+            tr = type_range(fn.type(strip(x, casts=False)) if False else fn.type(y))
+            narrow = tr is not None and tr[0] is not None and tr[0] >= 0 and tr[1] is not None and tr[1] <= 0xffff
+            masked = y['k'] == 'BinaryOperator' and y.get('op') == '&' and any((const(k_) or 0x10000) <= 0xffff for k_ in kids(y))
+            k = len(obs) + 1
+            ok = narrow or masked
+            obs.append(Ob('WORD-ADDR', fn.file, c['l'], fn.q, 'write8#%d' % k, DISCHARGED if ok else VIOLATED,
+                          '' if ok else 'the word address `%s` is scaled and stored without being narrowed to 16 bits: a register plus '
+                          'offset that carries past 0xffff is written at byte 0x20000 and beyond, outside the simulated address '
+                          'space' % show(y)[:50], 'word address of type %s' % fn.type(y), False))
+    if len(obs) < 4:
+        raise AnalysisBroken('WORD-ADDR: only %d scaled stores in simulate/lc3.cpp' % len(obs))
+    return RuleResult('WORD-ADDR', obs, 4, {})
